@@ -108,3 +108,364 @@ def named_stores(tree: Tree, fn: FuncInfo, cache: dict | None = None) -> list[Pr
         value_closure = rd.closure(rd.uses(value_expr))
         out.append(ProvStore(fn, node, key_expr, value_expr, call, identity_defs, value_closure))
     return out
+
+
+# ---------------------------------------------------------------------------------------------
+# values of locals along ONE path (path-sensitive forward substitution)
+
+
+def as_display(e: ast.AST) -> list[ast.AST] | None:
+    """The elements of ``e`` in order, if ``e`` is a collection with a statically known element list: a
+    tuple / list display, ``tuple(x)`` / ``list(x)`` of one, or a comprehension / generator expression
+    (one ``for``, no filter) over one - ``(f(i) for i in (a, b))`` has the elements ``f(a), f(b)``."""
+    if isinstance(e, (ast.Tuple, ast.List)):
+        return None if any(isinstance(x, ast.Starred) for x in e.elts) else list(e.elts)
+    if isinstance(e, ast.Call) and isinstance(e.func, ast.Name) and e.func.id in {"tuple", "list"} and len(e.args) == 1 and not e.keywords:
+        return as_display(e.args[0])
+    if isinstance(e, (ast.GeneratorExp, ast.ListComp)) and len(e.generators) == 1:
+        g = e.generators[0]
+        if g.ifs or g.is_async:
+            return None
+        src = as_display(g.iter)
+        if src is None:
+            return None
+        out = []
+        for item in src:
+            binding: dict[str, ast.AST] = {}
+            if not _match_target(g.target, item, binding):
+                return None
+            out.append(_replace_names(e.elt, binding))
+        return out
+    return None
+
+
+def _match_target(target: ast.AST, value: ast.AST, binding: dict[str, ast.AST]) -> bool:
+    if isinstance(target, ast.Name):
+        binding[target.id] = value
+        return True
+    if isinstance(target, (ast.Tuple, ast.List)):
+        elts = as_display(value)
+        if elts is None or len(elts) != len(target.elts) or any(isinstance(t, ast.Starred) for t in target.elts):
+            return False
+        return all(_match_target(t, v, binding) for t, v in zip(target.elts, elts))
+    return False
+
+
+def _replace_names(node: ast.AST, binding: dict[str, ast.AST], returned: dict[int, ast.AST] | None = None) -> ast.AST:
+    """Copy of ``node`` with loads of the bound names replaced (names rebound by an inner comprehension /
+    lambda are left alone); Call nodes listed in ``returned`` (by identity) are replaced by their value."""
+    import copy
+
+    if returned and isinstance(node, ast.Call) and id(node) in returned:
+        return returned[id(node)]
+    if isinstance(node, ast.Name):
+        if isinstance(node.ctx, ast.Load) and node.id in binding:
+            return binding[node.id]
+        return copy.copy(node)
+    inner = binding
+    if isinstance(node, (ast.ListComp, ast.SetComp, ast.GeneratorExp, ast.DictComp)):
+        bound = {n.id for g in node.generators for n in ast.walk(g.target) if isinstance(n, ast.Name)}
+        inner = {k: v for k, v in binding.items() if k not in bound}
+    elif isinstance(node, ast.Lambda):
+        bound = {a.arg for a in [*node.args.posonlyargs, *node.args.args, *node.args.kwonlyargs]}
+        inner = {k: v for k, v in binding.items() if k not in bound}
+    new = copy.copy(node)
+    for fld, value in ast.iter_fields(node):
+        if isinstance(value, ast.AST):
+            setattr(new, fld, _replace_names(value, inner, returned))
+        elif isinstance(value, list):
+            setattr(new, fld, [_replace_names(v, inner, returned) if isinstance(v, ast.AST) else v for v in value])
+    return new
+
+
+class PathValues:
+    """Values of the local names along ONE path of a function (the events of ``sa.paths.PathWalker``).
+
+    On a single path every name has exactly one value at every point, so the defining expressions can be
+    substituted into each other without the "single reaching definition" restriction of ``Inliner``:
+    ``x = a; if c: x = b; use(x)`` is ``use(b)`` on the path where ``c`` holds and ``use(a)`` on the other.
+    Values are ASTs over the parameters (and over calls / attribute chains that are left as they are).
+    Branch conditions are recorded in ``tests`` as (substituted test, outcome) in positive normal form.
+    Calls expanded by the walker (call-enter / call-return) are replaced by the value the callee returns on
+    this path.  A name whose object is mutated in place (``x.remove(..)``, ``x[k] = v``) gets a fresh opaque
+    value."""
+
+    def __init__(self) -> None:
+        self.frames: list[dict[str, ast.AST]] = [{}]
+        self.tests: list[tuple[ast.AST, bool]] = []
+        self.returned: dict[int, ast.AST] = {}
+        self._fresh = 0
+
+    @property
+    def env(self) -> dict[str, ast.AST]:
+        return self.frames[-1]
+
+    def value(self, expr: ast.AST) -> ast.AST:
+        return _replace_names(expr, self.env, self.returned)
+
+    def _opaque(self, name: str) -> ast.AST:
+        self._fresh += 1
+        return ast.Name(id=f"{name}′{self._fresh}", ctx=ast.Load())
+
+    def bind(self, target: ast.AST, v: ast.AST) -> None:
+        if isinstance(target, ast.Name):
+            self.env[target.id] = v
+        elif isinstance(target, ast.Starred):
+            self.bind(target.value, v)
+        elif isinstance(target, (ast.Tuple, ast.List)):
+            elts = as_display(v)
+            star = [i for i, t in enumerate(target.elts) if isinstance(t, ast.Starred)]
+            if elts is not None and not star and len(elts) == len(target.elts):
+                for t, x in zip(target.elts, elts):
+                    self.bind(t, x)
+                return
+            n = len(target.elts)
+            for i, t in enumerate(target.elts):
+                if star and i == star[0]:
+                    self.bind(t.value, self._opaque("rest"))
+                    continue
+                idx = i if not star or i < star[0] else i - n
+                self.bind(t, ast.Subscript(value=v, slice=ast.Constant(idx), ctx=ast.Load()))
+        elif isinstance(target, (ast.Subscript, ast.Attribute)):
+            base = target
+            while isinstance(base, (ast.Subscript, ast.Attribute)):
+                base = base.value
+            if isinstance(base, ast.Name):
+                self.env[base.id] = self._opaque(base.id)
+
+    def feed(self, event: tuple) -> None:
+        from .canon import normal_test
+        from .dataflow import MUTATORS
+
+        kind = event[0]
+        if kind == "stmt":
+            st = event[1]
+            if isinstance(st, ast.Assign):
+                v = self.value(st.value)
+                for t in st.targets:
+                    self.bind(t, v)
+            elif isinstance(st, ast.AnnAssign) and st.value is not None:
+                self.bind(st.target, self.value(st.value))
+            elif isinstance(st, ast.AugAssign):
+                if isinstance(st.target, ast.Name):
+                    old = self.env.get(st.target.id, ast.Name(id=st.target.id, ctx=ast.Load()))
+                    self.env[st.target.id] = ast.BinOp(left=old, op=st.op, right=self.value(st.value))
+                else:
+                    self.bind(st.target, self._opaque("aug"))
+            elif isinstance(st, ast.Expr) and isinstance(st.value, ast.Call) and isinstance(st.value.func, ast.Attribute) and st.value.func.attr in MUTATORS:
+                base = st.value.func.value
+                while isinstance(base, (ast.Subscript, ast.Attribute)):
+                    base = base.value
+                if isinstance(base, ast.Name):
+                    self.env[base.id] = self._opaque(base.id)
+            elif isinstance(st, (ast.FunctionDef, ast.AsyncFunctionDef, ast.ClassDef)):
+                self.env.pop(st.name, None)
+            elif isinstance(st, ast.Delete):
+                for t in st.targets:
+                    if isinstance(t, ast.Name):
+                        self.env.pop(t.id, None)
+        elif kind == "test":
+            test, outcome = normal_test(event[1], event[2])
+            self.tests.append((self.value(test), outcome))
+        elif kind == "iter":
+            loop = event[1]
+            self.bind(loop.target, self._opaque("item"))
+        elif kind == "with-enter":
+            item = event[1]
+            if item.optional_vars is not None:
+                self.bind(item.optional_vars, self.value(item.context_expr))
+        elif kind == "handler":
+            h = event[1]
+            if h is not None and getattr(h, "name", None):
+                self.env[h.name] = self._opaque(h.name)
+        elif kind == "call-enter":
+            _, call, callee, bind = event
+            frame = {p: self.value(a) for p, a in bind.items()}
+            self.frames.append(frame)
+        elif kind == "call-return":
+            _, call, callee, value, target = event
+            v = self.value(value) if value is not None else ast.Constant(None)
+            if len(self.frames) > 1:
+                self.frames.pop()
+            self.returned[id(call)] = v
+
+
+# ---------------------------------------------------------------------------------------------
+# forward substitution through calls of straight-line package helpers
+
+
+def free_names(expr: ast.AST) -> tuple[set[str], set[str]]:
+    """(names loaded free in ``expr``, names bound inside it by comprehensions / lambdas)."""
+    free: set[str] = set()
+    bound_all: set[str] = set()
+
+    def visit(n: ast.AST, bound: frozenset) -> None:
+        if isinstance(n, ast.Name):
+            if isinstance(n.ctx, ast.Load) and n.id not in bound:
+                free.add(n.id)
+            return
+        if isinstance(n, (ast.ListComp, ast.SetComp, ast.GeneratorExp, ast.DictComp)):
+            inner = bound
+            for g in n.generators:
+                visit(g.iter, inner)
+                names = {x.id for x in ast.walk(g.target) if isinstance(x, ast.Name)}
+                bound_all.update(names)
+                inner = inner | names
+                for c in g.ifs:
+                    visit(c, inner)
+            for part in ([n.key, n.value] if isinstance(n, ast.DictComp) else [n.elt]):
+                visit(part, inner)
+            return
+        if isinstance(n, ast.Lambda):
+            names = {a.arg for a in [*n.args.posonlyargs, *n.args.args, *n.args.kwonlyargs]}
+            bound_all.update(names)
+            visit(n.body, bound | names)
+            return
+        for c in ast.iter_child_nodes(n):
+            visit(c, bound)
+
+    visit(expr, frozenset())
+    return free, bound_all
+
+
+def straight_line_return(fn: FuncInfo) -> ast.Return | None:
+    """The single ``return`` of a function whose body is: docstring, simple assignments, argument checks that
+    only raise - i.e. a function whose value is ONE expression over its parameters."""
+    ret = None
+    for i, st in enumerate(fn.node.body):
+        if isinstance(st, ast.Expr) and isinstance(st.value, ast.Constant):
+            continue
+        if isinstance(st, (ast.Assign, ast.AnnAssign, ast.Pass, ast.Import, ast.ImportFrom)):
+            if isinstance(st, ast.Assign) and not all(isinstance(t, (ast.Name, ast.Tuple, ast.List)) for t in st.targets):
+                return None
+            continue
+        if isinstance(st, ast.If) and not st.orelse and st.body and isinstance(st.body[-1], ast.Raise) \
+                and all(isinstance(x, ast.Assign) and isinstance(x.value, (ast.Constant, ast.JoinedStr)) for x in st.body[:-1]):
+            continue
+        if isinstance(st, ast.Return) and st.value is not None and i == len(fn.node.body) - 1:
+            ret = st
+            continue
+        return None
+    return ret
+
+
+class CallInliner:
+    """``Inliner`` that also looks through calls of straight-line helper functions of the package:
+    ``helper(a, b)`` becomes the helper's (inlined) return expression with the parameters replaced by the
+    (inlined) arguments.  An extracted helper thereby reads like the block it was extracted from.  A call is
+    left as it is when the helper branches, is a method, takes ``*args``/``**kwargs``, or when substituting
+    would capture a name (a free name of an argument that a comprehension of the helper binds)."""
+
+    def __init__(self, tree: Tree, fn: FuncInfo, rd: RD | None = None, call_depth: int = 3) -> None:
+        from .inline import Inliner
+
+        outer = self
+
+        class _I(Inliner):
+            def _sub(self, node, depth, stop):  # noqa: ANN001
+                new = super()._sub(node, depth, stop)
+                if isinstance(node, ast.Call) and isinstance(new, ast.Call) and outer.call_depth > 0:
+                    r = outer._inline_call(node, new)
+                    if r is not None:
+                        return r
+                return new
+
+        self.tree, self.fn, self.call_depth = tree, fn, call_depth
+        self.inl = _I(fn.node, rd)
+        self.rd = self.inl.rd
+
+    def expr(self, node: ast.AST, stop: set[str] | None = None) -> ast.AST:
+        return self.inl.expr(node, stop=stop)
+
+    def _inline_call(self, orig: ast.Call, new: ast.Call) -> ast.AST | None:
+        from .loader import _local_names
+
+        if not hasattr(orig, "_module"):
+            return None
+        callee_q = self.tree.callee(orig, self.fn)
+        callee = self.tree.funcs.get(callee_q) if callee_q else None
+        if callee is None or callee is self.fn or callee.cls is not None or callee.outer is not None:
+            return None
+        a = callee.node.args
+        if a.vararg or a.kwarg or callee.node.decorator_list and any(unparse(d) not in {"cache", "lru_cache", "functools.cache", "lru_cache(maxsize=None)", "functools.lru_cache(maxsize=None)"} for d in callee.node.decorator_list):
+            return None
+        if any(isinstance(x, ast.Starred) for x in new.args) or any(k.arg is None for k in new.keywords):
+            return None
+        ret = straight_line_return(callee)
+        if ret is None:
+            return None
+        pos = [*a.posonlyargs, *a.args]
+        if len(new.args) > len(pos):
+            return None
+        mapping: dict[str, ast.AST] = {p.arg: v for p, v in zip(pos, new.args)}
+        for k in new.keywords:
+            if k.arg in mapping or k.arg not in {p.arg for p in [*pos, *a.kwonlyargs]}:
+                return None
+            mapping[k.arg] = k.value
+        defaults = dict(zip([p.arg for p in pos][len(pos) - len(a.defaults):], a.defaults))
+        defaults.update({p.arg: d for p, d in zip(a.kwonlyargs, a.kw_defaults) if d is not None})
+        for p in [*pos, *a.kwonlyargs]:
+            if p.arg not in mapping:
+                if p.arg not in defaults:
+                    return None
+                mapping[p.arg] = defaults[p.arg]
+        body = CallInliner(self.tree, callee, None, self.call_depth - 1).expr(ret.value)
+        free, bound = free_names(body)
+        locals_ = _local_names(callee.node)
+        if any(n in locals_ and n not in mapping for n in free):
+            return None  # a local of the helper with several definitions: its value is not one expression
+        for v in mapping.values():
+            if free_names(v)[0] & bound:
+                return None  # capture
+        return _replace_names(body, mapping)
+
+
+def ifexp_alternatives(expr: ast.AST, limit: int = 4) -> list[tuple[ast.AST, list[tuple[ast.AST, bool]]]]:
+    """``expr`` with every conditional expression resolved, once per combination of outcomes of the distinct
+    tests: [(expression without IfExp, [(test, outcome), ...])].  Occurrences with the same test text take the
+    same branch (a value that was substituted twice is one evaluation).  ``(a, b)[0]`` is reduced to ``a``."""
+    import copy
+    import itertools
+
+    tests: dict[str, ast.AST] = {}
+    for n in ast.walk(expr):
+        if isinstance(n, ast.IfExp):
+            tests.setdefault(ast.unparse(n.test), n.test)
+    if not tests:
+        return [(_reduce_indexing(expr), [])]
+    if len(tests) > limit:
+        from .loader import AnalysisError
+
+        raise AnalysisError(f"more than {limit} distinct conditional expressions in `{ast.unparse(expr)[:60]}`")
+    out = []
+    keys = list(tests)
+    for combo in itertools.product([True, False], repeat=len(keys)):
+        choice = dict(zip(keys, combo))
+
+        def pick(n: ast.AST) -> ast.AST:
+            while isinstance(n, ast.IfExp):
+                n = n.body if choice[ast.unparse(n.test)] else n.orelse
+            new = copy.copy(n)
+            for fld, value in ast.iter_fields(n):
+                if isinstance(value, ast.AST):
+                    setattr(new, fld, pick(value))
+                elif isinstance(value, list):
+                    setattr(new, fld, [pick(v) if isinstance(v, ast.AST) else v for v in value])
+            return new
+
+        out.append((_reduce_indexing(pick(expr)), [(tests[k], choice[k]) for k in keys]))
+    return out
+
+
+def _reduce_indexing(expr: ast.AST) -> ast.AST:
+    class R(ast.NodeTransformer):
+        def visit_Subscript(self, node: ast.Subscript):  # noqa: N802
+            self.generic_visit(node)
+            elts = as_display(node.value)
+            if elts is not None and isinstance(node.slice, ast.Constant) and isinstance(node.slice.value, int) and -len(elts) <= node.slice.value < len(elts):
+                return elts[node.slice.value]
+            return node
+
+    from .canon import clone  # deep copy that does not follow the loader's parent / module links
+
+    return R().visit(clone(expr))
